@@ -260,6 +260,10 @@ class C02(Prop):
         "time: the model has no clock; that a slow consumer of the mirrored text does not cost captured output "
         "is checked by one scripted case (corpus: slow out_stream) and one real child (36 KB, slow out_stream)",
         "Local.read_proc_stdout/err (os.read, EIO-as-EOF) are exercised only by the real-child runs",
+        "pty asked for vs in effect: the scripted runner runs the real Local.should_use_pty against a sys.stdin "
+        "stand-in (file / fileno() raises / no fileno method) with the one-off fallback warning counted as already "
+        "given (the warning text on sys.stderr is not modelled or judged); Runner.should_use_pty of other subclasses, "
+        "run.pty / run.fallback from configuration files and a pty that cannot be allocated for other reasons are not varied",
         "mirror streams: advertised encodings None/utf-8/ascii/latin-1/cp1252 and the backslashreplace handler "
         "only; a stream whose write() raises (errors='strict' on an unrepresentable character) kills the IO worker "
         "-- that is C08's ground, not generated here; stream attributes other than .encoding/.errors are not varied",
